@@ -1,5 +1,8 @@
 import StrettoModel.Proofs.TinyLFU
 import StrettoModel.Proofs.Cache
+import StrettoModel.Proofs.Gets
+import StrettoModel.Proofs.Frames
+import StrettoModel.Model.Lts
 /-!
 # C15 — Lookups feed the popularity estimator, lossily but accountably
 
@@ -117,11 +120,224 @@ theorem kept_batch_reaches_estimator (t : TinyLFU) (since batch : List Nat) (hin
     obtain ⟨e, he, hle, _⟩ := TinyLFU.estimate_of_inv t' s' hinv' k
     exact ⟨e, he, hle⟩⟩
 
+-- every lookup accounted, over whole runs -------------------------------------------------------------
+
+/-- ghost: the number of lookups (`get`, `get_mut`) made on the open cache since the last served
+`clear()` — at a served `clear()` the count restarts from the keys still pending in the batch, which a
+clear does not discard -/
+def ghostKD (c : Cache) (n : Nat) : Act → Nat
+  | .get _ _ _ => if c.closed then n else n + 1
+  | .getMut _ _ _ _ => if c.closed then n else n + 1
+  | .procClear => if c.procClear.isSome then c.ring.length else n
+  | _ => n
+
+def lookupsAccounted (su : Nat → Nat → Bool) : Cache → Nat → List Act → Nat
+  | _, n, [] => n
+  | c, n, a :: rest => lookupsAccounted su ((c.step su a).getD c) (ghostKD c n a) rest
+
+/-- while the policy is open: `gets_kept + gets_dropped + #pending = lookups`, mod 2^64 -/
+def KD (c : Cache) (n : Nat) : Prop :=
+  c.cfg.metricsOn = true → c.policyClosed = false →
+    ((c.metrics.keepGets : Int) + c.metrics.dropGets + c.ring.length - n) % 18446744073709551616 = 0
+
+theorem kd_transfer (c c' : Cache) (n : Nat) (h : c'.kd = c.kd) (hf : c'.cfg = c.cfg) (hi : KD c n) : KD c' n := by
+  intro hon hp
+  have h1 : c'.metrics.keepGets = c.metrics.keepGets := congrArg (·.1) h
+  have h2 : c'.metrics.dropGets = c.metrics.dropGets := congrArg (·.2.1) h
+  have h3 : c'.ring = c.ring := congrArg (·.2.2.1) h
+  have h4 : c'.policyClosed = c.policyClosed := congrArg (·.2.2.2) h
+  rw [h1, h2, h3]
+  exact hi (by rw [← hf]; exact hon) (by rw [← h4]; exact hp)
+
+theorem ringPush_KD (c : Cache) (k n : Nat) (hi : KD c n) : KD (c.ringPush k) (n + 1) := by
+  intro hon hp
+  have hon' : c.cfg.metricsOn = true := by rw [← Cache.ringPush_cfg c k]; exact hon
+  unfold Cache.ringPush at hp ⊢
+  simp only [] at hp ⊢
+  by_cases hfull : (c.ring ++ [k]).length ≥ c.cfg.ringCap
+  · simp only [hfull, if_true] at hp ⊢
+    by_cases hcl : c.policyClosed = true
+    · simp [hcl] at hp
+    · have hcl' : c.policyClosed = false := by simpa using hcl
+      have h0 := hi hon' hcl'
+      simp only [hcl', Bool.false_eq_true, if_false] at hp ⊢
+      have hk := u64_cast ((c.metrics.keepGets : Int) + ((c.ring ++ [k]).length : Nat))
+      have hd := u64_cast ((c.metrics.dropGets : Int) + ((c.ring ++ [k]).length : Nat))
+      simp only [List.length_append, List.length_cons, List.length_nil] at hk hd
+      cases hq : c.cfg.pqCap with
+      | none =>
+        simp only [if_true, Cache.met_metrics, Cache.met_ring, hon', List.length_nil,
+          List.length_append, List.length_cons]
+        omega
+      | some cap =>
+        simp only []
+        by_cases hroom : c.pq.length < cap
+        · simp only [hroom, decide_true, if_true, Cache.met_metrics, Cache.met_ring, hon', List.length_nil,
+            List.length_append, List.length_cons]
+          omega
+        · simp only [hroom, decide_false, Bool.false_eq_true, if_false, Cache.met_metrics, Cache.met_ring, hon', if_true,
+            List.length_nil, List.length_append, List.length_cons]
+          omega
+  · simp only [hfull, if_false] at hp ⊢
+    have h0 := hi hon' hp
+    simp only [List.length_append, List.length_cons, List.length_nil]
+    omega
+
+theorem get_KD (c : Cache) (k cf now n : Nat) (hi : KD c n) :
+    KD (c.get k cf now).1 (if c.closed then n else n + 1) := by
+  unfold Cache.get
+  split
+  · exact hi
+  · have h1 := ringPush_KD c k n hi
+    simp only []
+    split
+    · exact kd_transfer _ _ _ (by rw [Cache.met_kd]; intro m; exact ⟨rfl, rfl⟩) (by simp) h1
+    · exact kd_transfer _ _ _ (by rw [Cache.met_kd]; intro m; exact ⟨rfl, rfl⟩) (by simp) h1
+
+theorem getMut_KD (c : Cache) (k cf now v n : Nat) (hi : KD c n) :
+    KD (c.getMutWrite k cf now v).1 (if c.closed then n else n + 1) := by
+  unfold Cache.getMutWrite
+  split
+  · exact hi
+  · have h1 := ringPush_KD c k n hi
+    simp only []
+    split
+    · exact kd_transfer _ _ _ (by rw [Cache.met_kd]; intro m; exact ⟨rfl, rfl⟩) (by simp) h1
+    · exact kd_transfer _ _ _ ((Cache.met_kd _ _ (by intro m; exact ⟨rfl, rfl⟩)).trans rfl) (by simp) h1
+
+/-- one step of any actor keeps the accounting -/
+theorem step_KD (su : Nat → Nat → Bool) (c c' : Cache) (a : Act) (n : Nat) (hs : c.step su a = some c')
+    (hi : KD c n) : KD c' (ghostKD c n a) := by
+  have hcfg := step_cfg su c c' a hs
+  cases a with
+  | insert k cf v cost ttl now coster only =>
+    simp only [Cache.step, Option.some.injEq] at hs; subst hs
+    exact kd_transfer c _ n (Cache.insert_kd ..) hcfg hi
+  | get k cf now =>
+    simp only [Cache.step, Option.some.injEq] at hs; subst hs
+    exact get_KD c k cf now n hi
+  | getMut k cf now v =>
+    simp only [Cache.step, Option.some.injEq] at hs; subst hs
+    exact getMut_KD c k cf now v n hi
+  | remove k cf =>
+    simp only [Cache.step, Option.some.injEq] at hs; subst hs
+    exact kd_transfer c _ n (Cache.remove_kd ..) hcfg hi
+  | waitEnq id =>
+    simp only [Cache.step, Option.some.injEq] at hs; subst hs
+    exact kd_transfer c _ n (Cache.waitEnq_kd ..) hcfg hi
+  | clearReq id =>
+    simp only [Cache.step, Option.some.injEq] at hs; subst hs
+    exact kd_transfer c _ n (Cache.clearReq_kd ..) hcfg hi
+  | closeBegin id =>
+    simp only [Cache.step, Option.some.injEq] at hs; subst hs
+    exact kd_transfer c _ n (Cache.closeBegin_kd ..) hcfg hi
+  | updateMaxCost mc =>
+    simp only [Cache.step, Option.some.injEq] at hs; subst hs
+    exact kd_transfer c _ n rfl hcfg hi
+  | procItem est refills =>
+    simp only [Cache.step, Cache.procItem] at hs
+    split at hs
+    · cases hs
+    · split at hs
+      · cases hs
+      · simp only [Option.some.injEq] at hs; subst hs
+        exact kd_transfer c _ n ((Cache.handleItem_kd ..).trans ((Cache.admitPending_kd _).trans rfl)) hcfg hi
+  | procClear =>
+    simp only [ghostKD]
+    simp only [Cache.step] at hs
+    rw [hs]
+    simp only [Option.isSome_some, if_true]
+    unfold Cache.procClear at hs
+    split at hs
+    · cases hs
+    · split at hs
+      · cases hs
+      · rename_i id rest _
+        simp only [Option.some.injEq] at hs; subst hs
+        have hd := Cache.drain_kd c.buf ({ c with buf := [], clearQ := rest } : Cache)
+        have hr : (c.buf.foldl Cache.drainItem ({ c with buf := [], clearQ := rest } : Cache)).ring = c.ring :=
+          congrArg (·.2.2.1) hd
+        intro _ _
+        simp only [hr]
+        show ((0 : Int) + 0 + c.ring.length - c.ring.length) % 18446744073709551616 = 0
+        omega
+  | procTick now order =>
+    simp only [Cache.step, Cache.procTick] at hs
+    split at hs
+    · cases hs
+    · simp only [Option.some.injEq] at hs; subst hs
+      exact kd_transfer c _ n ((Cache.deliverEvictions_kd _ _).trans ((Cache.sweepKeys_kd ..).trans rfl)) hcfg hi
+  | procStop =>
+    simp only [Cache.step, Cache.procStop] at hs
+    split at hs
+    · cases hs
+    · simp only [Option.some.injEq] at hs; subst hs
+      exact kd_transfer c _ n rfl hcfg hi
+  | policyWorker =>
+    simp only [Cache.step, Cache.policyWorkerStep] at hs
+    cases hp : c.pq with
+    | nil => simp [hp] at hs
+    | cons b rest =>
+      simp only [hp, Option.map_some, Option.some.injEq] at hs; subst hs
+      exact kd_transfer c _ n rfl hcfg hi
+  | policyClose =>
+    simp only [Cache.step, Option.some.injEq] at hs; subst hs
+    intro _ hp
+    simp [Cache.policyClose] at hp
+
+theorem ghostKD_disabled (su : Nat → Nat → Bool) (c : Cache) (n : Nat) (a : Act) (hs : c.step su a = none) :
+    ghostKD c n a = n := by
+  cases a with
+  | procClear => simp only [Cache.step] at hs; simp [ghostKD, hs]
+  | get k cf now => simp [Cache.step] at hs
+  | getMut k cf now v => simp [Cache.step] at hs
+  | _ => rfl
+
+/-- **every lookup is accounted exactly once, over every run**: after any run of any actors from the
+builder's state, as long as the policy has not been closed, `gets_kept + gets_dropped` plus the keys
+still pending in the batch equals (mod 2^64) the number of lookups made on the open cache since the
+last served `clear()` — no lookup is counted twice, none disappears uncounted. -/
+theorem lookups_accounted (su : Nat → Nat → Bool) (cfg : Cfg) (maxCost : Int) (samples : Nat) (acts : List Act)
+    (hon : cfg.metricsOn = true)
+    (hopen : (Cache.run su (Cache.init cfg maxCost samples) acts).policyClosed = false) :
+    let c := Cache.run su (Cache.init cfg maxCost samples) acts
+    ((c.metrics.keepGets : Int) + c.metrics.dropGets + c.ring.length
+      - lookupsAccounted su (Cache.init cfg maxCost samples) 0 acts) % 18446744073709551616 = 0 := by
+  intro c
+  have gen : ∀ (acts : List Act) (c0 : Cache) (n : Nat), KD c0 n →
+      KD (Cache.run su c0 acts) (lookupsAccounted su c0 n acts) := by
+    intro acts
+    induction acts with
+    | nil => intro c0 n h; exact h
+    | cons a rest ih =>
+      intro c0 n h
+      simp only [Cache.run, lookupsAccounted]
+      apply ih
+      cases hs : c0.step su a with
+      | none => rw [ghostKD_disabled su c0 n a hs]; exact h
+      | some c1 => exact step_KD su c0 c1 a n hs h
+  have h0 : KD (Cache.init cfg maxCost samples) 0 := by intro _ _; simp [Cache.init]
+  have := gen acts _ 0 h0
+  apply this
+  · show (Cache.run su (Cache.init cfg maxCost samples) acts).cfg.metricsOn = true
+    rw [run_cfg]; exact hon
+  · exact hopen
+
+
 -- non-vacuity ---------------------------------------------------------------------------------
 def exCfg : Cfg := { itemSize := 56, ignoreInternal := false, bufCap := 4, ringCap := 2, pqCap := some 1, metricsOn := true }
 example : (((Cache.init exCfg 100 5).ringPush 7).ringPush 8).pq = [[7, 8]] ∧
           (((((Cache.init exCfg 100 5).ringPush 7).ringPush 8).ringPush 9).ringPush 10).metrics.dropGets = 2 := by
   decide
+
+-- `lookups_accounted` on a concrete run: ring of 2, queue of 1, no policy worker: three batches are
+-- flushed (one kept, two dropped), one key is pending, seven lookups were made
+def exLookups : List Act := [.get 1 0 0, .get 2 0 0, .get 1 0 0, .get 3 0 0, .getMut 4 0 0 9, .get 1 0 0, .get 5 0 0]
+example : ((Cache.run (fun _ _ => true) (Cache.init exCfg 100 5) exLookups).metrics.keepGets,
+           (Cache.run (fun _ _ => true) (Cache.init exCfg 100 5) exLookups).metrics.dropGets,
+           (Cache.run (fun _ _ => true) (Cache.init exCfg 100 5) exLookups).ring.length,
+           lookupsAccounted (fun _ _ => true) (Cache.init exCfg 100 5) 0 exLookups,
+           (Cache.run (fun _ _ => true) (Cache.init exCfg 100 5) exLookups).policyClosed) = (2, 4, 1, 7, false) := by decide
 
 end Stretto.C15
 
@@ -132,3 +348,5 @@ end Stretto.C15
 #print axioms Stretto.C15.unbounded_queue_never_drops
 #print axioms Stretto.C15.worker_takes_oldest_batch
 #print axioms Stretto.C15.kept_batch_reaches_estimator
+#print axioms Stretto.C15.step_KD
+#print axioms Stretto.C15.lookups_accounted
